@@ -387,9 +387,9 @@ Proof.
   rewrite specs_cols_types. apply Forall_map. exact H.
 Qed.
 
-Lemma specs_tm_types : tm_types (expect_table_map t) = map (fun s => code_of (cs_type s)) specs.
+Lemma specs_tm_types pt : tm_types (expect_table_map pt t) = map (fun s => code_of (cs_type s)) specs.
 Proof. cbn [expect_table_map tm_types]. rewrite <- (map_map cs_type code_of), specs_types, map_map. reflexivity. Qed.
-Lemma specs_tm_meta : tm_meta (expect_table_map t) = map (fun s => meta_of (cs_type s)) specs.
+Lemma specs_tm_meta pt : tm_meta (expect_table_map pt t) = map (fun s => meta_of (cs_type s)) specs.
 Proof. cbn [expect_table_map tm_meta]. rewrite <- (map_map cs_type meta_of), specs_types, map_map. reflexivity. Qed.
 End Specs.
 
@@ -397,6 +397,7 @@ End Specs.
 (* 5. all the images of a rows event                                   *)
 
 Section RowsImages.
+Variables pc pn : Z.     (* padding patterns of the presence bitmaps and of the NULL bitmaps: arbitrary *)
 Variables (tm : table_map) (ti : tinfo) (specs : list colspec).
 Let cols := specs_cols specs.
 Let tys := map cs_type specs.
@@ -405,8 +406,8 @@ Hypothesis Htypes : tm_types tm = map (fun s => code_of (cs_type s)) specs.
 Hypothesis Hmeta : tm_meta tm = map (fun s => meta_of (cs_type s)) specs.
 Hypothesis Hti : ti_cols ti = map (fun s => (cs_name s, cs_uns s)) specs.
 Variables (rs : rows) (wi wv : bool) (ipres dpres : list bool) (kind : Z).
-Hypothesis Hi : wi = true -> rs_ident_cols rs = expect_bitmap ipres.
-Hypothesis Hd : wv = true -> rs_data_cols rs = expect_bitmap dpres.
+Hypothesis Hi : wi = true -> rs_ident_cols rs = expect_bitmap pc ipres.
+Hypothesis Hd : wv = true -> rs_data_cols rs = expect_bitmap pc dpres.
 
 Definition img_ok (pres : list bool) (o : option (list cellv)) : Prop :=
   exists img, o = Some img /\ present_bits img = pres /\ wf_image cols pres img = true.
@@ -416,9 +417,9 @@ Definition side_cols (o : option (list cellv)) : rowdata :=
   match o with Some img => expect_columns ffmt tz specs img | None => [] end.
 
 Lemma image_side pres bm o :
-  img_ok pres o -> bm = expect_bitmap pres ->
+  img_ok pres o -> bm = expect_bitmap pc pres ->
   image_of ffmt tz jsonp tm ti bm
-           (match o with Some img => expect_bitmap (null_bits img) | None => bitmap_zero end)
+           (match o with Some img => expect_bitmap pn (null_bits img) | None => bitmap_zero end)
            (option_map (image_cells tys) o) = Ok (Some (side_cols o)).
 Proof.
   intros (img & -> & Hp & W) ->. cbn [option_map side_cols]. subst pres.
@@ -427,7 +428,7 @@ Proof.
 Qed.
 
 Lemma rows_images_pairs ps : Forall pair_ok ps -> forall ids vals,
-  rows_images ffmt tz jsonp tm ti rs wi wv (map (fun p => expect_row tys kind (fst p) (snd p)) ps) ids vals =
+  rows_images ffmt tz jsonp tm ti rs wi wv (map (fun p => expect_row pn tys kind (fst p) (snd p)) ps) ids vals =
   Ok (Some (rev ids ++ (if wi then map (fun p => side_cols (fst p)) ps else []),
             rev vals ++ (if wv then map (fun p => side_cols (snd p)) ps else []))).
 Proof.
@@ -435,12 +436,12 @@ Proof.
   - cbn [map rows_images]. rewrite !rev_append_rev. destruct wi, wv; rewrite ?app_nil_r; reflexivity.
   - cbn [map rows_images]. cbn [expect_row r_null_ident r_ident r_null_data r_data].
     assert (Ei : (if wi then image_of ffmt tz jsonp tm ti (rs_ident_cols rs)
-                       match fst p with Some img => expect_bitmap (null_bits img) | None => bitmap_zero end
+                       match fst p with Some img => expect_bitmap pn (null_bits img) | None => bitmap_zero end
                        (option_map (image_cells tys) (fst p)) else Ok (Some []))
                  = Ok (Some (if wi then side_cols (fst p) else []))).
     { destruct wi; [|reflexivity]. apply (image_side ipres); auto. }
     assert (Ed : (if wv then image_of ffmt tz jsonp tm ti (rs_data_cols rs)
-                       match snd p with Some img => expect_bitmap (null_bits img) | None => bitmap_zero end
+                       match snd p with Some img => expect_bitmap pn (null_bits img) | None => bitmap_zero end
                        (option_map (image_cells tys) (snd p)) else Ok (Some []))
                  = Ok (Some (if wv then side_cols (snd p) else []))).
     { destruct wv; [|reflexivity]. apply (image_side dpres); auto. }
@@ -467,18 +468,18 @@ Proof.
   - rewrite lookup_update_other in H by exact Hne. eapply Hc; eauto.
 Qed.
 
-Lemma table_info_agree tables t ti :
+Lemma table_info_agree pt tables t ti :
   cache_ok tables -> mp (td_db t) (td_name t) = Some ti -> length (ti_cols ti) = length (td_cols t) ->
-  table_info_for mp tables (td_id t) (expect_table_map t) = ATable (td_id t) (expect_table_map t) ti.
+  table_info_for mp tables (td_id t) (expect_table_map pt t) = ATable (td_id t) (expect_table_map pt t) ti.
 Proof.
   intros Hc Hm Hl. unfold table_info_for.
-  assert (New : match mp (tm_db (expect_table_map t)) (tm_name (expect_table_map t)) with
-                | Some ti0 => if negb (Nat.eqb (length (ti_cols ti0)) (bm_count (tm_can_be_null (expect_table_map t))))
-                              then AStop CMismatch else ATable (td_id t) (expect_table_map t) ti0
-                | None => AStop CMapper end = ATable (td_id t) (expect_table_map t) ti).
+  assert (New : match mp (tm_db (expect_table_map pt t)) (tm_name (expect_table_map pt t)) with
+                | Some ti0 => if negb (Nat.eqb (length (ti_cols ti0)) (bm_count (tm_can_be_null (expect_table_map pt t))))
+                              then AStop CMismatch else ATable (td_id t) (expect_table_map pt t) ti0
+                | None => AStop CMapper end = ATable (td_id t) (expect_table_map pt t) ti).
   { cbn [expect_table_map tm_db tm_name tm_can_be_null expect_bitmap bm_count]. rewrite Hm, map_length, Hl, Nat.eqb_refl. reflexivity. }
   destruct (lookup_table (td_id t) tables) as [[old ti0]|] eqn:E; [|exact New].
-  destruct (bytes_eqb (tm_db old) (tm_db (expect_table_map t)) && bytes_eqb (tm_name old) (tm_name (expect_table_map t))) eqn:B; [|exact New].
+  destruct (bytes_eqb (tm_db old) (tm_db (expect_table_map pt t)) && bytes_eqb (tm_name old) (tm_name (expect_table_map pt t))) eqn:B; [|exact New].
   apply andb_true_iff in B as [B1 B2]. apply bytes_eqb_eq in B1, B2. cbn [expect_table_map tm_db tm_name] in B1, B2.
   pose proof (Hc _ _ _ E) as H0. rewrite B1, B2, Hm in H0. inversion H0. reflexivity.
 Qed.
@@ -490,7 +491,7 @@ Notation f := (expect_format c v).
 
 Lemma decode_wtablemap h t crc :
   wf_whdr h -> fits c (WTableMap h t crc) -> wf_table_def c t ->
-  decode f tables (wire c (WTableMap h t crc)) = table_info_for mp tables (td_id t) (expect_table_map t).
+  decode f tables (wire c (WTableMap h t crc)) = table_info_for mp tables (td_id t) (expect_table_map (c_pad_tm c) t).
 Proof.
   intros Wh Hf Wt. unfold fits in Hf. cbn [wire wtype whead wbody wcrc] in *.
   destruct (ev_facts c v _ _ _ Wc (wf_hdr_of 19 h ltac:(lia) Wh) Hf) as (V & T0 & S & T & N & Ts).
@@ -507,11 +508,11 @@ Proof.
   intros [-> | [-> | ->]]; unfold rows_type; destruct (c_v2 c0); cbn [In]; split; try reflexivity; lia.
 Qed.
 
-Lemma rows_images_wire t ti hr r :
+Lemma rows_images_wire pt t ti hr r :
   Forall (fun p => wf_type (fst p) = true) (td_cols t) -> length (ti_cols ti) = length (td_cols t) ->
   wf_rows_def (specs_cols (specs_of t ti)) r -> tinfo_of mp t = ti ->
-  let rs := expect_rows (map cs_type (specs_of t ti)) r in
-  rows_images ffmt tz jsonp (expect_table_map t) ti rs
+  let rs := expect_rows c (map cs_type (specs_of t ti)) r in
+  rows_images ffmt tz jsonp (expect_table_map pt t) ti rs
               (negb (4 + rd_kind r =? K_StatementInsert)) (negb (4 + rd_kind r =? K_StatementDelete)) (rs_rows rs) [] []
   = Ok (Some (se_ids (rows_sevent ffmt tz mp t hr r), se_values (rows_sevent ffmt tz mp t hr r))).
 Proof.
@@ -519,7 +520,7 @@ Proof.
   set (specs := specs_of t ti) in *. set (cols := specs_cols specs) in *.
   assert (Lc : length (map cs_type specs) = length cols) by (unfold cols, specs_cols; rewrite !map_length; reflexivity).
   pose proof (wf_cols_family _ tz_bounded (specs_wf_types t ti Hl Hnj)) as Hnj'. fold specs in Hnj'. fold cols in Hnj'.
-  pose proof (specs_tm_types t ti Hl) as Ht. pose proof (specs_tm_meta t ti Hl) as Hm. fold specs in Ht, Hm.
+  pose proof (specs_tm_types t ti Hl pt) as Ht. pose proof (specs_tm_meta t ti Hl pt) as Hm. fold specs in Ht, Hm.
   pose proof (eq_sym (specs_names t ti Hl)) as Hn'. fold specs in Hn'.
   subst rs. unfold rows_sevent. rewrite Hti. fold specs. cbn [se_ids se_values expect_rows rs_rows rs_ident_cols rs_data_cols].
   rewrite expect_row_list_pairs by exact Hk.
@@ -530,14 +531,14 @@ Proof.
     unfold wf_images in W. rewrite Forall_forall in W. specialize (W img Hin).
     destruct (wf_image_parts _ _ _ W FL) as (_ & P & _ & _).
     exists img. auto. }
-  set (rs := expect_rows (map cs_type specs) r).
-  assert (Hi : negb (4 + rd_kind r =? K_StatementInsert) = true -> rs_ident_cols rs = expect_bitmap ipres).
+  set (rs := expect_rows c (map cs_type specs) r).
+  assert (Hi : negb (4 + rd_kind r =? K_StatementInsert) = true -> rs_ident_cols rs = expect_bitmap (c_pad_cols c) ipres).
   { intros H. subst rs ipres. cbn [expect_rows rs_ident_cols]. rewrite Lc.
     destruct (Z.eqb_spec (rd_kind r) 0) as [E|E]; [|reflexivity]. rewrite E in H. discriminate H. }
-  assert (Hd : negb (4 + rd_kind r =? K_StatementDelete) = true -> rs_data_cols rs = expect_bitmap dpres).
+  assert (Hd : negb (4 + rd_kind r =? K_StatementDelete) = true -> rs_data_cols rs = expect_bitmap (c_pad_cols c) dpres).
   { intros H. subst rs dpres. cbn [expect_rows rs_data_cols]. rewrite Lc.
     destruct (Z.eqb_spec (rd_kind r) 2) as [E|E]; [|reflexivity]. rewrite E in H. discriminate H. }
-  rewrite (rows_images_pairs (expect_table_map t) ti specs Hnj' Ht Hm Hn' rs _ _ ipres dpres (rd_kind r) Hi Hd).
+  rewrite (rows_images_pairs (c_pad_cols c) (c_pad_null c) (expect_table_map pt t) ti specs Hnj' Ht Hm Hn' rs _ _ ipres dpres (rd_kind r) Hi Hd).
   - cbn [rev app]. unfold before_images, after_images, row_pairs.
     destruct Hk as [K|[K|K]]; rewrite K; cbn [Z.add Z.eqb Pos.eqb negb K_StatementInsert K_StatementDelete Pos.add Pos.succ];
       rewrite ?map_map; cbn [fst snd side_cols]; reflexivity.
@@ -551,11 +552,11 @@ Proof.
 Qed.
 
 (* rows events: the table map cached for the id, every image rendered column by column *)
-Lemma decode_wrows h t ti r crc :
+Lemma decode_wrows h pt t ti r crc :
   wf_whdr h -> fits c (WRows h (map fst (td_cols t)) r crc) -> wf_table_def c t ->
   length (ti_cols ti) = length (td_cols t) -> tinfo_of mp t = ti -> rd_id r = td_id t ->
   wf_rows_def (specs_cols (specs_of t ti)) r ->
-  lookup_table (td_id t) tables = Some (expect_table_map t, ti) ->
+  lookup_table (td_id t) tables = Some (expect_table_map pt t, ti) ->
   decode f tables (wire c (WRows h (map fst (td_cols t)) r crc)) =
     AStmt (rows_sevent ffmt tz mp t h r) (w_next h) (w_ts h).
 Proof.
@@ -568,14 +569,14 @@ Proof.
   destruct (rows_type_in c (rd_kind r) Hk) as (Hin & Hrk).
   cbn [wire wtype whead wbody wcrc] in *. rewrite <- E in *.
   destruct (ev_facts c v _ _ _ Wc (wf_hdr_of (rows_type c (rd_kind r)) h ltac:(lia) Wh) Hf) as (V & T0 & S & T & N & Ts).
-  pose proof (rows_roundtrip_tm ffmt tz jsonp c v (hdr_of (rows_type c (rd_kind r)) h) _ t r crc Wc
+  pose proof (rows_roundtrip_tm ffmt tz jsonp c v (hdr_of (rows_type c (rd_kind r)) h) _ pt t r crc Wc
                 (wf_cols_family _ tz_bounded (specs_wf_types t ti Hl Hnj)) Wr (eq_sym E) eq_refl) as R1.
   rewrite S in R1. cbn [bind] in R1.
   destruct Wt as (Hidr & _).
   pose proof (rows_table_id c v (hdr_of (rows_type c (rd_kind r)) h) (map fst (specs_cols (specs_of t ti))) r crc Wc Hk
                 ltac:(rewrite Hid; exact Hidr) eq_refl) as R2.
   rewrite S in R2. cbn [bind] in R2. rewrite Hid in R2.
-  pose proof (rows_images_wire t ti h r Hnj Hl Wr Hti) as R3. cbv zeta in R3. rewrite <- E2 in R3.
+  pose proof (rows_images_wire pt t ti h r Hnj Hl Wr Hti) as R3. cbv zeta in R3. rewrite <- E2 in R3.
   rewrite (decode_rows_shape _ _ _ _ _ V T0 (format_nonzero c v) S T _ _ _ _ _ _ _ _ _ Hin Hrk R2 Hlk R1 Ts R3 N).
   cbn [hdr_of h_ts h_next]. f_equal. unfold rows_sevent. rewrite Hti. reflexivity.
 Qed.
